@@ -6,6 +6,7 @@ import (
 	"time"
 
 	"verif/sim/netsim"
+	"verif/sim/scripted"
 
 	"github.com/IBM/TSS/mpc/bls"
 	"github.com/IBM/TSS/mpc/ps"
@@ -21,6 +22,15 @@ type directOpts struct {
 	Silent       uint16
 	SilentAfter  int // messages the silent peer still sends (-1: nobody is silent)
 	CancelAtStep int // 0: contexts with a deadline of 10 simulated minutes instead
+	// CancelInSend: every context is cancelled from within party CisParty's CisNth call of its send callback - that
+	// is, while the caller is RUNNING between two of its waits, not parked in one - and that send then takes a
+	// simulated millisecond, so that whoever watches the context acts before the caller goes on (0: off).
+	CisParty uint16
+	CisNth   int
+	// SlowSendMs/DeadlineMs: every send takes about SlowSendMs of simulated time and the contexts carry a deadline
+	// of DeadlineMs, which can therefore expire while a caller is inside a send (0: off).
+	SlowSendMs int
+	DeadlineMs int
 }
 
 func runDirectDKG(spec RunSpec, w *netsim.World, backend string, order []uint16, t int, psMsgLen int, strategy string, lg *CountLogger, opts ...directOpts) (shares map[uint16][]byte, calls []*netsim.Call, ss *netsim.ScriptSched) {
@@ -45,6 +55,7 @@ func runDirectDKG(spec RunSpec, w *netsim.World, backend string, order []uint16,
 	shares = map[uint16][]byte{}
 	st := &starter{}
 	var cancels []context.CancelFunc
+	cancelled := false
 	for _, id := range order {
 		id := id
 		var kg tss.KeyGenerator
@@ -54,6 +65,23 @@ func runDirectDKG(spec RunSpec, w *netsim.World, backend string, order []uint16,
 			kg = &ps.TPS{Logger: lg, Party: id, Curve: PSCurve, MessageLength: max(psMsgLen, 1)}
 		}
 		send := w.SendFunc(id)
+		if opt.CisNth > 0 || opt.SlowSendMs > 0 {
+			inner, nsent := send, 0
+			send = func(msgType uint8, topic []byte, msg []byte, to ...uint16) {
+				inner(msgType, topic, msg, to...)
+				nsent++
+				if opt.CisNth > 0 && id == opt.CisParty && nsent == opt.CisNth && !cancelled {
+					cancelled = true
+					w.Faults["cancel-in-send"]++
+					for _, c := range cancels {
+						c()
+					}
+					time.Sleep(scripted.SimDelay(1, []byte{byte(id), byte(id >> 8), byte(nsent)}))
+				} else if opt.SlowSendMs > 0 {
+					time.Sleep(scripted.SimDelay(opt.SlowSendMs, []byte{byte(id), byte(id >> 8), byte(nsent)}))
+				}
+			}
+		}
 		var others []uint16
 		for _, o := range order {
 			if o != id {
@@ -77,7 +105,10 @@ func runDirectDKG(spec RunSpec, w *netsim.World, backend string, order []uint16,
 		st.add(fmt.Sprintf("start:kg:%d", id), id, 3, func() *netsim.Call {
 			var ctx context.Context
 			var cancel context.CancelFunc
-			if opt.CancelAtStep > 0 {
+			if opt.DeadlineMs > 0 {
+				w.Faults["deadline"]++
+				ctx, cancel = context.WithTimeout(context.Background(), time.Duration(opt.DeadlineMs)*time.Millisecond)
+			} else if opt.CancelAtStep > 0 || opt.CisNth > 0 {
 				ctx, cancel = context.WithCancel(context.Background())
 			} else {
 				ctx, cancel = context.WithTimeout(context.Background(), 10*time.Minute)
@@ -87,7 +118,6 @@ func runDirectDKG(spec RunSpec, w *netsim.World, backend string, order []uint16,
 		})
 	}
 	sched, ss := scheduler(spec, strategy)
-	cancelled := false
 	w.Propose = func() []netsim.Proposal {
 		ps := st.proposals()
 		if opt.CancelAtStep > 0 && !cancelled && st.allStarted() && w.Step >= opt.CancelAtStep {
@@ -102,7 +132,9 @@ func runDirectDKG(spec RunSpec, w *netsim.World, backend string, order []uint16,
 		return ps
 	}
 	lim := netsim.RunLimits{MaxSteps: 100000, Horizon: 20 * time.Minute, FairAfterSteps: 5000, FairAfter: 2 * time.Minute}
-	if opt.CancelAtStep > 0 {
+	if opt.CisNth > 0 || opt.DeadlineMs > 0 {
+		lim = netsim.RunLimits{MaxSteps: 6000, Horizon: 5 * time.Minute, FairAfterSteps: 1500, FairAfter: time.Minute}
+	} else if opt.CancelAtStep > 0 {
 		// everybody must have returned shortly after the cancellation
 		lim = netsim.RunLimits{MaxSteps: opt.CancelAtStep + 4000, Horizon: 5 * time.Minute, FairAfterSteps: opt.CancelAtStep + 500, FairAfter: time.Minute}
 	}
